@@ -1144,3 +1144,14 @@ Proof.
     (unfold acting; unfold id_is_conn in Hi; destruct (r_id r); try discriminate Hi;
      rewrite Ha, Hid; cbn [andb N.eqb]; destruct (r_eff r); try discriminate He; reflexivity).
 Qed.
+
+(* the rows without an explicit gate answer an unauthenticated sender with success although nothing happens
+   (HTTPDomainList: empty list; HTTPDomainDelete of an id that does not exist: "already deleted"; Disconnect: nil) *)
+Lemma ungated_rows_success_but_inert :
+  res_ok (exec current_table w_demo KUnknown 0 (c_demo 87 None None)) = true
+  /\ res_ok (exec current_table w_demo KFresh 0 (c_demo 86 (Some 999) None)) = true
+  /\ res_ok (exec current_table w_demo KPending 0 (c_demo 11 None None)) = true
+  /\ inert w_demo (exec current_table w_demo KUnknown 0 (c_demo 87 None None))
+  /\ inert w_demo (exec current_table w_demo KFresh 0 (c_demo 86 (Some 999) None))
+  /\ inert w_demo (exec current_table w_demo KPending 0 (c_demo 11 None None)).
+Proof. repeat split; vm_compute; reflexivity. Qed.
